@@ -743,6 +743,17 @@ handleTimeouts(CS104_Connection self)
     Semaphore_wait(self->conStateLock);
 #endif /* (CONFIG_USE_SEMAPHORES == 1) */
 
+    /* check T1 for an unanswered TESTFR_ACT before T3 can send the next one and move the deadline */
+    if (self->uMessageTimeout != 0)
+    {
+        if (currentTime > self->uMessageTimeout)
+        {
+            DEBUG_PRINT("U message T1 timeout\n");
+            retVal = false;
+            goto exit_function;
+        }
+    }
+
     if (currentTime > self->nextT3Timeout)
     {
         if (self->outstandingTestFCConMessages > 2)
@@ -771,16 +782,6 @@ handleTimeouts(CS104_Connection self)
         if (checkConfirmTimeout(self, currentTime))
         {
             confirmOutstandingMessages(self);
-        }
-    }
-
-    if (self->uMessageTimeout != 0)
-    {
-        if (currentTime > self->uMessageTimeout)
-        {
-            DEBUG_PRINT("U message T1 timeout\n");
-            retVal = false;
-            goto exit_function;
         }
     }
 
